@@ -27,7 +27,7 @@ META = dict(
                "[low,high] notations re-implemented with decimal alignment",
 )
 
-from ..configs import LAZY, EVENTS, QUICK_PATHS, all_paths, apply_event, snippet as _snippet
+from ..configs import LAZY, EVENTS, QUICK_PATHS, all_paths, apply_event, judged_tables, snippet as _snippet
 
 
 class Ref(object):
@@ -211,7 +211,7 @@ def run_path(args):
             return acc
         acc.transitions += 1
     live = [("public", pt.elements)] + sorted(tables.items())
-    for label, T in live:
+    for label, T in judged_tables(path, live):
         cells = sweep(pt, T, label, path, ref, acc)
         acc.states += cells
         acc.nontrivial += cells
